@@ -1258,13 +1258,20 @@ _lookup(LB* self,
     if (result == NULL) {
         int status;
 
+        /* The call below runs arbitrary Python code, which can clear our
+           caches (directly, from another thread, ...). Own the cache we
+           are about to store into, so that the worst case is a store
+           into a detached dictionary, not into freed memory. */
+        Py_INCREF(cache);
         result = PyObject_CallMethodObjArgs(
           OBJECT(self), str_uncached_lookup, required, provided, name, NULL);
         if (result == NULL) {
+            Py_DECREF(cache);
             Py_DECREF(required);
             return NULL;
         }
         status = PyDict_SetItem(cache, key, result);
+        Py_DECREF(cache);
         Py_DECREF(required);
         if (status < 0) {
             Py_DECREF(result);
@@ -1517,13 +1524,17 @@ _lookupAll(LB* self, PyObject* required, PyObject* provided)
     if (result == NULL) {
         int status;
 
+        /* See the note in _lookup: own the cache across the call. */
+        Py_INCREF(cache);
         result = PyObject_CallMethodObjArgs(
           OBJECT(self), str_uncached_lookupAll, required, provided, NULL);
         if (result == NULL) {
+            Py_DECREF(cache);
             Py_DECREF(required);
             return NULL;
         }
         status = PyDict_SetItem(cache, required, result);
+        Py_DECREF(cache);
         Py_DECREF(required);
         if (status < 0) {
             Py_DECREF(result);
@@ -1585,13 +1596,17 @@ _subscriptions(LB* self, PyObject* required, PyObject* provided)
     if (result == NULL) {
         int status;
 
+        /* See the note in _lookup: own the cache across the call. */
+        Py_INCREF(cache);
         result = PyObject_CallMethodObjArgs(
           OBJECT(self), str_uncached_subscriptions, required, provided, NULL);
         if (result == NULL) {
+            Py_DECREF(cache);
             Py_DECREF(required);
             return NULL;
         }
         status = PyDict_SetItem(cache, required, result);
+        Py_DECREF(cache);
         Py_DECREF(required);
         if (status < 0) {
             Py_DECREF(result);
@@ -1802,14 +1817,25 @@ _verify(VB* self)
 
     if (self->_verify_ro != NULL && self->_verify_generations != NULL) {
         PyObject* generations;
+        PyObject* verify_ro;
         int changed;
 
-        generations = _generations_tuple(self->_verify_ro);
+        /* Reading ``_generation`` can run arbitrary Python code that
+           calls ``changed()`` on us, which replaces both tuples: own the
+           one we iterate over, and look at the other one again after. */
+        verify_ro = self->_verify_ro;
+        Py_INCREF(verify_ro);
+        generations = _generations_tuple(verify_ro);
+        Py_DECREF(verify_ro);
         if (generations == NULL)
             return -1;
 
-        changed = PyObject_RichCompareBool(
-          self->_verify_generations, generations, Py_NE);
+        if (self->_verify_generations == NULL) {
+            changed = 1;
+        } else {
+            changed = PyObject_RichCompareBool(
+              self->_verify_generations, generations, Py_NE);
+        }
         Py_DECREF(generations);
         if (changed == -1)
             return -1;
